@@ -19,7 +19,9 @@ import (
 )
 
 var e2eNames = []string{"a", "b", "x y", "", "é", "not", "Or"}
-var e2eVals = []string{"", "a", "ab", "b"}
+// (values with runs of blanks, a tab, a no-break space: what is inside a quoted
+// literal is data, however the text around it is laid out)
+var e2eVals = []string{"", "a", "ab", "b", "a  b", "a\tb", "a\u00a0b", " a"}
 
 func e2eBasic(r *rand.Rand) *ref.Node {
 	n := e2eNames[r.Intn(len(e2eNames))]
@@ -265,7 +267,7 @@ func TestC07e2e(t *testing.T) {
 var rpcVocab = []ref.Tok{
 	ref.Ident("attributes"), ref.Ident("hasPrefix"), ref.Ident("AND"), ref.Ident("OR"), ref.Ident("NOT"),
 	ref.Ident("and"), ref.Ident("Attributes"), ref.Ident("HASPREFIX"), ref.Ident("Not"),
-	ref.Ident("a"), ref.Str(""), ref.Str("a"), ref.P(":"), ref.P("."), ref.P("="), ref.P("!="), ref.P("("), ref.P(")"), ref.P(","), ref.P("-"),
+	ref.Ident("a"), ref.Str(""), ref.Str("a"), ref.Str("a  b"), ref.Str("\t"), ref.P(":"), ref.P("."), ref.P("="), ref.P("!="), ref.P("("), ref.P(")"), ref.P(","), ref.P("-"),
 }
 
 func unspecSeq(toks []ref.Tok) bool {
